@@ -45,6 +45,13 @@ pub struct DriveStats {
 
 /// Feed `input` cut at `cuts` to a fresh decoder and check every C02 clause.
 pub fn drive(ver: Ver, input: &[u8], cuts: &[usize], max_size: u32, min_chunk: u32, out: &mut Vec<Finding>, st: &mut DriveStats) {
+    // "decoding terminates": the input is announced to the Engine B monitor for the duration of the evaluation
+    crate::check::b_enter(if ver == Ver::V5 { "v5 Codec::decode" } else { "v3 Codec::decode" }, input);
+    drive_inner(ver, input, cuts, max_size, min_chunk, out, st);
+    crate::check::b_leave();
+}
+
+fn drive_inner(ver: Ver, input: &[u8], cuts: &[usize], max_size: u32, min_chunk: u32, out: &mut Vec<Finding>, st: &mut DriveStats) {
     let l5;
     let l3;
     let lib: &dyn LibCodec = if ver == Ver::V5 {
@@ -265,7 +272,9 @@ pub fn drive_sniff(input: &[u8], cuts: &[usize], out: &mut Vec<Finding>) {
     for piece in pieces(input, cuts) {
         src.extend_from_slice(piece);
         let before = src.to_vec();
+        crate::check::b_enter("protocol-version sniffer", input);
         let r = std::panic::catch_unwind(std::panic::AssertUnwindSafe(|| ntex_mqtt::verif::sniff(&mut src)));
+        crate::check::b_leave();
         match r {
             Err(p) => {
                 out.push(fnd("panic", "sniff decoder".into(), format!("sniffer panicked: {}", panic_msg(p)), inp()));
